@@ -31,6 +31,8 @@ QUICK = [
     _c('ext_transport', 'ext_transport', dict(T=3)),
     _c('caps_timeseries', 'caps_ts', dict(T=3)),
     _c('window_storage', 'contract_storage', dict(T=4, win_s=(1, 3), win_c=(0, 3))),
+    _c('caps_interval_data', 'caps_dict', dict(T=4, wacc=True)),
+    _c('caps_interval_data_cet', 'caps_dict', dict(T=4, tz='CET')),
 ]
 THOROUGH = QUICK + [
     _c('contract_storage_T4', 'contract_storage', dict(T=4, wacc=True)),
@@ -65,6 +67,25 @@ def cases(tier, seed):
 
 def run_case(case_id, tier, seed, shape, kw, level):
     rec = lpsem.Rec(PROP, case_id)
+    if level == 'B':
+        # fully symbolic (bilinear) queries: short per-query budget; an `unknown` is never a pass -- the case is re-decided at
+        # Level A (coefficient parameters instantiated) and reported as downgraded
+        rec.timeout_ms = 8000
+        _run(rec, seed, shape, kw, 'B', stop_on_unknown=True)
+        unknown = [o for o in rec.obligations if o['verdict'] == 'unknown']
+        if not unknown:
+            return rec.result()
+        rec2 = lpsem.Rec(PROP, case_id)
+        rec2.note('Level B inconclusive (%d queries unknown within 8 s/16 s): re-decided at Level A with eff/factors instantiated' % len(unknown))
+        rec2.extra['downgraded_to_level_A'] = 1
+        rec2.solver_s += rec.solver_s
+        _run(rec2, seed, shape, kw, 'A')
+        return rec2.result()
+    _run(rec, seed, shape, kw, level)
+    return rec.result()
+
+
+def _run(rec, seed, shape, kw, level, stop_on_unknown=False):
     res = scen.explore(shape, kw, level=level, with_output=False)
     rec.paths = len(res)
     validated = False
@@ -78,9 +99,10 @@ def run_case(case_id, tier, seed, shape, kw, level):
             continue
         sc = path.result
         embed_ref.check(rec, P, D, path, sc.sh, sc.op)
+        if stop_on_unknown and any(o['verdict'] == 'unknown' for o in rec.obligations):
+            return
         if not validated:
             validated = scen.validation_request(rec, sc, D, path, seed)
-    return rec.result()
 
 
 def observe(case, kwargs, env, rq):
